@@ -58,6 +58,8 @@ type Obligation struct {
 	Result  string // unsat | sat | unknown | timeout | error
 	Solver  string
 	Seconds float64
+	Total   float64 // solver wall time over every attempt
+	Tries   int
 	Model   string
 	Expect  string // "unsat" normally; "sat" for canaries / covers
 	Vars    map[string]string // param name -> SMT symbol (for replay)
